@@ -677,6 +677,23 @@ ACCESSORS = [_acc(p, f, "const jwk_item_t *it; %s(it);" % f) for p, f in _GETTER
     _acc("C14", "jwks_error_clear", "jwk_set_t *s; jwks_error_clear(s);", 2)]
 for _u in ACCESSORS:
     P[_u["name"][:3]]["units"].append(_u)
+
+# ---- the public forwarding wrappers of the loaders (C07): exact set / text / length reach the loader once ----
+_LS = "__jwks_load_strn/contract_rec___jwks_load_strn"
+def _wrap(fn, body, replace, n, defines=()):
+    c = "contract_C07_" + fn
+    rp = {"driver": "replay/r_C07_len.c", "args": ["fn=" + fn.split("_")[-1]]} if fn in ("jwks_load", "jwks_create") else None
+    return U("C07." + fn, "%s (libjwt/jwks.c)" % fn, JWKS_C, "contracts/jwks_c.h", body, "%s/%s" % (fn, c), replace=replace, assumed_contracts=replace,
+             stubs=LIBC, defines=["VERIF_TU_JWKS", "VERIF_STRLEN_RECORD"] + list(defines), flags=["--conversion-check"],
+             expect=[c + "\\.postcondition\\.%d" % n, "contract_rec_.*\\.precondition" if replace == [_LS] else c + "\\.postcondition"], timeout=300, replay=rp)
+P["C07"]["units"] += [
+    _wrap("jwks_load_strn", "jwk_set_t *s; const char *j; size_t n; jwks_load_strn(s, j, n);", [_LS], 1),
+    _wrap("jwks_load", "jwk_set_t *s; const char *j; jwks_load(s, j);", [_LS], 2),
+    _wrap("jwks_create", "const char *j; jwks_create(j);", [_LS], 2),
+    _wrap("jwks_create_strn", "const char *j; size_t n; jwks_create_strn(j, n);", [_LS], 1),
+    _wrap("jwks_create_fromfile", "const char *f; jwks_create_fromfile(f);", ["jwks_load_fromfile/contract_rec_jwks_load_fromfile"], 1),
+    _wrap("jwks_create_fromfp", "FILE *f; jwks_create_fromfp(f);", ["jwks_load_fromfp/contract_rec_jwks_load_fromfp"], 1),
+]
 _REC_DOERS = ["__getter/contract_rec___getter", "__setter/contract_rec___setter", "__deleter/contract_rec___deleter"]
 for _w in ("header_get", "header_set", "claim_get", "claim_set"):
     P["C15"]["units"].append(U("C15.jwt_%s" % _w, "jwt_%s -> __run_it (libjwt/jwt-setget.c)" % _w, SETGET_C, "contracts/jwt_setget_c.h",
